@@ -77,9 +77,7 @@ fn apollo(schema: &Valid<Schema>, text: &str) -> Result<(bool, Vec<String>), Str
     })
 }
 
-const QUIRK_KEYS: [(&str, fn(&mut Quirks)); 3] = [
-    ("apollo-accepts:AllVariableUsesDefined/custom-scalar-object", |q| q.custom_scalar_object_unchecked = true),
-    ("apollo-accepts:InputObjectFieldUniqueness/custom-scalar-object", |q| q.custom_scalar_object_duplicates = true),
+const QUIRK_KEYS: [(&str, fn(&mut Quirks)); 1] = [
     ("apollo-accepts:AllVariableUsagesAllowed/nested-position", |q| q.nested_var_named_only = true),
 ];
 
@@ -603,7 +601,14 @@ fn samevalue_case(ctx: &mut Ctx, schema: &Valid<Schema>, a: &Val, b: &Val) {
     let out = match apollo(schema, &text) {
         Err(p) => { ctx.fail("panic", &text, &p); "panic".to_string() }
         Ok((true, _)) => "same".to_string(),
-        Ok((false, names)) => if names == vec!["ConflictingFieldArgument".to_string()] { "differ".to_string() } else { format!("other:{}", names.join(",")) },
+        // a repeated field name in an object literal is reported on its own (UniqueInputValue, fix 9a745ed)
+        // and does not hide the comparison of the two argument values
+        Ok((false, names)) => {
+            let rest: Vec<&String> = names.iter().filter(|n| *n != "UniqueInputValue").collect();
+            if rest.is_empty() { "same".to_string() }
+            else if rest == vec!["ConflictingFieldArgument"] { "differ".to_string() }
+            else { format!("other:{}", names.join(",")) }
+        }
     };
     let (mut ea, mut eb) = (String::new(), String::new());
     val_enc(a, &mut ea); val_enc(b, &mut eb);
